@@ -972,13 +972,14 @@ func checkValueNotifier(r *Reporter, p *Prog) {
 		}
 		f := newFuncCFG(p, info, fd.Body, key)
 		self := recvObj(info, fd)
+		selves := f.selfAliases(self)
 		isNotifyRecv := func(n ast.Node) bool {
 			u, ok := n.(*ast.UnaryExpr)
 			if !ok || u.Op != token.ARROW {
 				return false
 			}
 			se, ok := ast.Unparen(u.X).(*ast.SelectorExpr)
-			if !ok || objOfIdent(info, se.X) != self || self == nil {
+			if !ok || !selves[objOfIdent(info, se.X)] || self == nil {
 				return false
 			}
 			sel := info.Selections[se]
@@ -1002,7 +1003,7 @@ func checkValueNotifier(r *Reporter, p *Prog) {
 				return false
 			}
 			fs, ok := ast.Unparen(se.X).(*ast.SelectorExpr)
-			if !ok || objOfIdent(info, fs.X) != self {
+			if !ok || !selves[objOfIdent(info, fs.X)] {
 				return false
 			}
 			sel := info.Selections[fs]
@@ -1043,14 +1044,19 @@ func checkValueNotifier(r *Reporter, p *Prog) {
 				}
 				return false
 			}
-			if w, found := f.PathFromEntryAvoiding(rpt, func(n ast.Node) bool { return afterNodes[n] || setsError(n) }, func(e Edge) bool {
+			// a result variable that is known to hold an error on the path (handed back by a spliced
+			// helper together with its other results) is not a success either
+			thisRet := rs
+			if w, found := f.reach(f.entry(), &searchOpts{AvoidNode: func(n ast.Node) bool { return afterNodes[n] || setsError(n) }, AvoidEdge: func(e Edge) bool {
 				for _, np := range notified {
 					if np.I == 0 && e.From.Succs[e.Succ] == np.B {
 						return true
 					}
 				}
 				return false
-			}); found {
+			}, AvoidRet: func(r2 *ast.ReturnStmt, val func(ast.Expr) int8) bool {
+				return r2 == thisRet && resVar != nil && val(r2.Results[0]) == 1
+			}}, func(pt Point, atExit bool) bool { return !atExit && f.At(pt, rpt) }); found {
 				bad = fmt.Sprintf("%s: Wait returns success on a path that did not receive from the notification channel (%s): a cancelled context or a deregistration is reported as a notification", f.PosOf(rpt), strings.Join(w, " -> "))
 			}
 			// ... and after that receive the deregistration flag is looked at again: when the listener
@@ -1064,6 +1070,8 @@ func checkValueNotifier(r *Reporter, p *Prog) {
 						}
 					}
 					return false
+				}, AvoidRet: func(r2 *ast.ReturnStmt, val func(ast.Expr) int8) bool {
+					return r2 == thisRet && resVar != nil && val(r2.Results[0]) == 1
 				}}, func(pt Point, atExit bool) bool { return !atExit && f.At(pt, rpt) }); found {
 					stale = fmt.Sprintf("%s: after the receive from the notification channel Wait returns success without looking at the deregistration flag again (%s): a listener that was deregistered before Notify finds both channels closed and reports success half of the time", f.PosOf(rpt), strings.Join(w, " -> "))
 				}
